@@ -73,6 +73,8 @@ func genWF(r *rng, depth int, out *[]cutTok) {
 //   "surplus" / "two"     malformed: unmatched closer / more than one expression
 type frame struct {
 	closer  string
+	isSet   bool
+	seen    map[string]bool
 	isMap   bool
 	n       int // complete children
 	pending int // forms still owed to reader macros inside this frame
@@ -81,7 +83,26 @@ type frame struct {
 func wfCheck(toks []cutTok) string {
 	stack := []frame{{closer: ""}}
 	done := false
+	// content the grammar of the property says nothing about (mutated texts only): a set member or a map key
+	// that is not a string / keyword, a repeated set member — the reader may reject those on their own account
+	nospec := false
+	var curTok *cutTok
 	completeForm := func() {
+		if top := &stack[len(stack)-1]; top.pending == 0 {
+			isKey := curTok != nil && curTok.kind == "key"
+			if top.isSet {
+				if !isKey || top.seen[curTok.text] {
+					nospec = true
+				} else {
+					top.seen[curTok.text] = true
+				}
+			}
+			if top.isMap && top.n%2 == 0 && !isKey {
+				nospec = true
+			}
+		} else if top.isSet || (top.isMap && top.n%2 == 0) {
+			nospec = true // a reader-macro form as set member / map key
+		}
 		// a form has just been completed in the top frame
 		for {
 			top := &stack[len(stack)-1]
@@ -96,14 +117,17 @@ func wfCheck(toks []cutTok) string {
 			return
 		}
 	}
-	for _, t := range toks {
+	for ti := range toks {
+		t := toks[ti]
 		if done {
 			return "two"
 		}
 		top := &stack[len(stack)-1]
+		curTok = &toks[ti]
 		switch {
 		case strings.HasPrefix(t.kind, "open:") || strings.HasPrefix(t.kind, "set:"):
-			stack = append(stack, frame{closer: t.kind[strings.Index(t.kind, ":")+1:], isMap: t.text == "{"})
+			stack = append(stack, frame{closer: t.kind[strings.Index(t.kind, ":")+1:], isMap: t.text == "{",
+				isSet: strings.HasPrefix(t.kind, "set:"), seen: map[string]bool{}})
 		case t.kind == "close":
 			if len(stack) == 1 || top.closer != t.text {
 				return "surplus"
@@ -112,6 +136,7 @@ func wfCheck(toks []cutTok) string {
 				return "malformed"
 			}
 			stack = stack[:len(stack)-1]
+			curTok = nil // the completed child is a collection
 			completeForm()
 		case t.kind == "macro":
 			// the macro form completes when its operand does: 1 form owed
@@ -131,6 +156,9 @@ func wfCheck(toks []cutTok) string {
 		if len(stack) == 1 && stack[0].n == 1 && stack[0].pending == 0 {
 			done = true
 		}
+	}
+	if nospec {
+		return "nospec"
 	}
 	if done {
 		return "complete"
@@ -197,6 +225,20 @@ func (e *cutEngine) generate(r *rng, n int, tier string, emit func(string)) {
 		for _, c := range closers {
 			ext := append(append([]cutTok{}, toks...), c)
 			emit("e0,p0 x" + hex.EncodeToString([]byte(renderToks(r, ext))) + " | " + wfCheck(ext))
+		}
+		// mutations (every third expression): each closer inserted at every position, each token deleted — a
+		// closer right after a reader macro, in the middle of a map, between two expressions …
+		if i%3 == 0 && len(toks) <= 12 {
+			for k := 0; k <= len(toks); k++ {
+				for _, c := range closers {
+					mut := append(append(append([]cutTok{}, toks[:k]...), c), toks[k:]...)
+					emit("e0,p0 x" + hex.EncodeToString([]byte(renderToks(r, mut))) + " | " + wfCheck(mut))
+				}
+				if k < len(toks) && len(toks) > 1 {
+					mut := append(append([]cutTok{}, toks[:k]...), toks[k+1:]...)
+					emit("e0,p0 x" + hex.EncodeToString([]byte(renderToks(r, mut))) + " | " + wfCheck(mut))
+				}
+			}
 		}
 		var second []cutTok
 		genWF(r, 1, &second)
